@@ -199,6 +199,8 @@ impl<H: Hal, const SIZE: usize> VirtQueue<H, SIZE> {
         unsafe {
             (*self.avail.as_ptr()).ring[avail_slot as usize] = head;
         }
+        #[cfg(feature = "verif-hooks")]
+        crate::verif_hooks::fire(crate::verif_hooks::Point::AvailRingWritten);
 
         // Write barrier so that device sees changes to descriptor table and available ring before
         // change to available index.
@@ -212,6 +214,8 @@ impl<H: Hal, const SIZE: usize> VirtQueue<H, SIZE> {
                 .idx
                 .store(self.avail_idx, Ordering::Release);
         }
+        #[cfg(feature = "verif-hooks")]
+        crate::verif_hooks::fire(crate::verif_hooks::Point::AvailIdxWritten);
 
         Ok(head)
     }
@@ -330,6 +334,10 @@ impl<H: Hal, const SIZE: usize> VirtQueue<H, SIZE> {
 
         // Wait until there is at least one element in the used ring.
         while !self.can_pop() {
+            #[cfg(feature = "verif-hooks")]
+            crate::verif_hooks::fire(crate::verif_hooks::Point::Spin(
+                crate::verif_hooks::SpinSite::QueueAddNotifyWaitPop,
+            ));
             spin_loop();
         }
 
@@ -350,6 +358,8 @@ impl<H: Hal, const SIZE: usize> VirtQueue<H, SIZE> {
                     .flags
                     .store(avail_ring_flags, Ordering::Release)
             }
+            #[cfg(feature = "verif-hooks")]
+            crate::verif_hooks::fire(crate::verif_hooks::Point::AvailFlagsWritten);
         }
     }
 
@@ -379,6 +389,8 @@ impl<H: Hal, const SIZE: usize> VirtQueue<H, SIZE> {
         unsafe {
             (*self.desc.as_ptr())[index] = self.desc_shadow[index].clone();
         }
+        #[cfg(feature = "verif-hooks")]
+        crate::verif_hooks::fire(crate::verif_hooks::Point::DescWritten(index as u16));
     }
 
     /// Returns whether there is a used element that can be popped.
@@ -563,6 +575,8 @@ impl<H: Hal, const SIZE: usize> VirtQueue<H, SIZE> {
                     .used_event
                     .store(self.last_used_idx, Ordering::Release);
             }
+            #[cfg(feature = "verif-hooks")]
+            crate::verif_hooks::fire(crate::verif_hooks::Point::UsedEventWritten);
         }
 
         Ok(len)
